@@ -13,8 +13,9 @@ from vf.gen import values as gv
 from vf.pool import ALL_VERSIONS, HOSTS
 from vf.run import Result
 
-NATIVE_REPR = re.compile(r'<code object (\S+) at 0x[0-9a-f]+, file "(.*?)", line (\d+)>')
-PORTABLE_REPR = re.compile(r'<Code\w+ code object (\S+) at 0x[0-9a-f]+, file (.*?)>, line (\d+)')
+# (3.12+ names such as "<generic parameters of g>" contain spaces)
+NATIVE_REPR = re.compile(r'<code object (.+?) at 0x[0-9a-f]+, file "(.*?)", line (\d+)>')
+PORTABLE_REPR = re.compile(r'<Code\w+ code object (.+?) at 0x[0-9a-f]+, file (.*?)>, line (\d+)')
 
 
 def _no_linebreaks(t):
@@ -77,6 +78,8 @@ def norm_dis(dis):
         c2.pop("instrs_tb", None)
         if isinstance(c2.get("instrs_gi"), dict) and "instrs" in c2["instrs_gi"]:
             c2["instrs_gi"] = norm_dis([{"instrs": c2["instrs_gi"]["instrs"]}])[0]["instrs"]
+        if isinstance(c2.get("instrs_loi"), dict) and "instrs" in c2["instrs_loi"]:
+            c2["instrs_loi"] = norm_dis([{"instrs": c2["instrs_loi"]["instrs"]}])[0]["instrs"]
         if "co_lines" in c2:
             # 3.11 does not merge adjacent equal-line ranges, 3.12+ and xdis do: compare per code unit
             c2["co_lines"] = sorted(pd.per_unit(c2["co_lines"]).items())
@@ -122,7 +125,9 @@ class C07:
         files = [p for p in pd.corpus_files() if "dropbox" not in p]
         step = 6 if ctx.tier == "quick" else 1
         for i, p in enumerate(files):
-            if i % step == (ctx.seed % step):
+            m = re.match(r"bytecode_(\d\.\d+)/", p)
+            # files of a version xdis can run on are always taken (their own host may use another loader path)
+            if i % step == (ctx.seed % step) or (m and m.group(1) in HOSTS):
                 yield {"k": "corpus", "path": p, "hosts": [HOSTS[i % len(HOSTS)], HOSTS[(i + 3) % len(HOSTS)]]}
 
     def judge(self, case, ctx):
